@@ -761,6 +761,9 @@ def search(ctx, budget_s):
         v = oracle(case, observe(case))
         if v:
             ctx.violation(v[0], {"case": case}, key=v[1])
+    # read-back routes and reading histories (lazy iterators interleaved with other reads): 40% of the budget
+    from dv import c02_routes
+    c02_routes.search_more(ctx, random.Random(ctx.seed + 777), 0.4 * budget_s)
     while time.time() - t0 < budget_s and n < 20000:
         case = gen_roundtrip_case(rng, 8)
         obs = observe(case)
@@ -816,7 +819,7 @@ def run(tier, seed, replay=None):
         if case["kind"] == "roundtrip":
             print("written:", repr(obs["written"]))
         return 0
-    ok = core.proof_stage(ctx, ["Props/C02.vo"], gen_needed=("CharClasses", "NewickGen", "NewickMeta"))
+    ok = core.proof_stage(ctx, ["Props/C02.vo"], gen_needed=("CharClasses", "NewickGen", "NewickMeta", "C02MapObjGen"))
     if not ok:
         core.broken_proof(ctx, search)
     n = 500 if tier == "quick" else 8000
@@ -874,6 +877,16 @@ def run(tier, seed, replay=None):
     core.corr_stage(ctx, mcases, c02_meta.observe, c02_meta.to_coq, c02_meta.HEADER, "mcase_ok", oracle=c02_meta.oracle,
                     show_fn="mcase_show", nontrivial=c02_meta.nontrivial, search=search, shard=250,
                     label="metadata correspondence", sample_fn=c02_meta.sample_fn)
+    # read-back ROUTES and reading HISTORIES: every documented reader entry point on every written document, lazy iterators
+    # interleaved with other reads (py/dv/c02_routes.py, Model/C02Routes.v)
+    from dv import c02_routes
+    rcases = list(c02_routes.witness_cases())
+    rcases += [c02_routes.gen_case(ctx.rng, min(maxleaves, 8)) for _ in range(120 if tier == "quick" else 2000)]
+    for c in rcases:
+        c02_routes.count_case(ctx, c)
+    core.corr_stage(ctx, rcases, c02_routes.observe, c02_routes.to_coq, c02_routes.HEADER, "rcase_ok", oracle=c02_routes.oracle,
+                    show_fn="rcase_show", nontrivial=c02_routes.nontrivial, search=search, shard=40,
+                    label="routes correspondence", sample_fn=c02_routes.sample_fn)
     return ctx.finish(
         level="proof",
         rule="random rose trees (1-8 leaves quick / 1-20 thorough, unifurcations, single nodes, 1-3 trees per list) x labels biased to "
@@ -886,4 +899,9 @@ def run(tier, seed, replay=None):
              "(str / int / bool / lists; 70% from a safe alphabet, 30% with & = , { } \" : / [ ] quotes, rooting- and weight-like texts), writer options "
              "store_tree_weights / suppress_item_comments / suppress_annotations, reader store_tree_weights (10% mismatched) and extract_comment_metadata; "
              "30% reader-only texts full of weight / rooting / metadata-like comments (FigTree and NHX forms); fixed probes incl. the _refuted witnesses and 48 "
-             "single-node trees under the enumerated options; non-trivial: >=2 nodes and some weight/comment/annotation")
+             "single-node trees under the enumerated options; non-trivial: >=2 nodes and some weight/comment/annotation. "
+             "Routes stage: 1-2 written documents (Newick / NEXUS / NEXUS+TRANSLATE / NeXML, half with decimal-integer labels that are other taxa's "
+             "positions, extra trees introducing them late) read back through TreeList.get, TreeList.read, Tree.get(tree_offset=k) for every k, DataSet.get, "
+             "Tree.yield_from_files (file object, path, without namespace, schema nexus/newick) and TreeArray.read, alone and in histories of 2-3 lazy "
+             "iterators advanced in random interleavings with eager reads in between; all delivered trees re-observed after every step; fixed cases: "
+             "integer labels out of order, two documents iterated in step, a parse inside the loop; non-trivial: >=3 nodes")
